@@ -105,6 +105,14 @@ func (p *printer) space() {
 
 func (p *printer) newline() {
 	p.w.WriteByte('\n')
+	// here-documents begin after the next <newline>
+	list := p.stack[len(p.stack)-1]
+	p.stack[len(p.stack)-1] = nil
+	for _, r := range list {
+		p.word(r.Heredoc)
+		p.word(r.Delim)
+		p.w.WriteByte('\n')
+	}
 }
 
 func (p *printer) print(n ast.Node) (err error) {
@@ -428,7 +436,6 @@ func (p *printer) ifClause(x *ast.IfClause) {
 					defer undo()
 				}
 			}
-			p.push()
 		}
 		for _, c := range cond {
 			if sep != "" {
@@ -446,9 +453,7 @@ func (p *printer) ifClause(x *ast.IfClause) {
 				} else {
 					p.w.WriteString("; then")
 				}
-				p.heredoc()
 			} else {
-				p.heredoc()
 				p.newline()
 				p.indent()
 				p.w.WriteString("then")
@@ -507,7 +512,6 @@ func (p *printer) loop(list bool, word string, cond, cmds []ast.Command) {
 				defer undo()
 			}
 		}
-		p.push()
 	}
 	for _, c := range cond {
 		if sep != "" {
@@ -525,9 +529,7 @@ func (p *printer) loop(list bool, word string, cond, cmds []ast.Command) {
 			} else {
 				p.w.WriteString("; do")
 			}
-			p.heredoc()
 		} else {
-			p.heredoc()
 			p.newline()
 			p.indent()
 			p.w.WriteString("do")
@@ -584,7 +586,7 @@ func (p *printer) heredoc() {
 	list := p.stack[len(p.stack)-1]
 	p.stack = p.stack[:len(p.stack)-1]
 	for _, r := range list {
-		p.newline()
+		p.w.WriteByte('\n')
 		p.word(r.Heredoc)
 		p.word(r.Delim)
 	}
@@ -654,9 +656,11 @@ func (p *printer) cmdSubst(w *ast.CmdSubst) {
 		p.w.WriteByte('`')
 	}
 	if len(w.List) > 1 || w.Left.Line() != w.Right.Line() {
+		p.push()
 		p.compoundList(w.List)
 		p.newline()
 		p.indent()
+		p.stack = p.stack[:len(p.stack)-1]
 	} else {
 		if w.Dollar && p.paren(w.List[0]) {
 			p.space()
@@ -675,9 +679,7 @@ func (p *printer) compoundList(cmds []ast.Command) {
 	for _, c := range cmds {
 		p.newline()
 		p.indent()
-		p.push()
 		p.command(c)
-		p.heredoc()
 	}
 	p.lv--
 }
@@ -689,6 +691,7 @@ func (p *printer) arithExp(w *ast.ArithExp) {
 func (p *printer) arithExpr(list bool, left string, x ast.Word) {
 	p.w.WriteString(left)
 	if !list {
+		p.push()
 		p.lv++
 		p.newline()
 		p.indent()
@@ -705,6 +708,7 @@ func (p *printer) arithExpr(list bool, left string, x ast.Word) {
 		p.lv--
 		p.newline()
 		p.indent()
+		p.stack = p.stack[:len(p.stack)-1]
 	}
 	p.w.WriteString("))")
 }
